@@ -5,7 +5,7 @@ T = "sqlglot/tokenizer_core.py"
 fields(sql="str", size="int", _current="int", _line="int", _col="int", _char="str", _peek="str", _end="bool", _start="int", tokens="list[Token]",
        _comments="list", _prev_token_line="int")
 
-axiom("empty-string-is-not-alnum", "lambda: not ''.isalnum()")
+axiom("empty-string-is-not-alnum", "lambda: not ''.isalnum()", check="lambda c: not ''.isalnum()")
 
 # the cursor caches agree with the offset:  _char is the character just consumed, _peek the next one
 define("tcursor_ok", "lambda s: s.size == len(s.sql) and 1 <= s._current and s._current <= s.size and s._char == s.sql[s._current - 1]"
